@@ -602,8 +602,16 @@ class Backend(ABC):
     def convert_condition_val(self, cond: ConditionValueExpression, state: ConversionState) -> Any:
         """Conversion of value-only conditions."""
         match cond.value:
+            case SigmaCasedString():
+                raise SigmaValueError(
+                    "Case-sensitive values can't appear as standalone value without a field name."
+                )
             case SigmaString():
                 return self.convert_condition_val_str(cond, state)
+            case SigmaTimestampPart():
+                raise SigmaValueError(
+                    "Timestamp part values can't appear as standalone value without a field name."
+                )
             case SigmaNumber():
                 return self.convert_condition_val_num(cond, state)
             case SigmaBool():
@@ -618,10 +626,17 @@ class Backend(ABC):
                 )
             case SigmaQueryExpression():
                 return self.convert_condition_query_expr(cond, state)
-            case _:  # pragma: no cover
-                raise TypeError(
-                    "Unexpected value type class in condition parse tree: "
-                    + cond.value.__class__.__name__
+            case SigmaExpansion():
+                # convert each value of the expansion on its own and OR-link the results
+                or_cond = ConditionOR(
+                    [ConditionValueExpression(value) for value in cond.value.values],
+                    cond.source,
+                )
+                return self.convert_condition_or(or_cond, state)
+            case _:
+                raise SigmaValueError(
+                    f"Values of type { cond.value.__class__.__name__ } can't appear as standalone "
+                    "value without a field name."
                 )
 
     def convert_condition(
